@@ -22,6 +22,7 @@ type harnessSpec struct {
 	Thorough map[string]int
 	Covers   []string // cover points that must be reached (vacuity guard)
 	Xval     int      // translator-validation samples per tier (quick); thorough = 4x
+	XSolvers []string // thorough tier: back-ends every query is mirrored to (verdicts diffed)
 	Desc     string
 }
 
@@ -180,12 +181,24 @@ func cmdCheck(args []string) int {
 				infra = append(infra, "harness function not found: "+h.Name)
 				continue
 			}
-			st := vm.Explore(vm.Config{Machine: ld.m, Entry: entry, Harness: h.Name, Workers: runtime.NumCPU(), Params: params, KnownOpen: kf.openMap(), Samples: 3, OwnPrefixes: spec.own()})
+			var xs []string
+			if tier == "thorough" {
+				xs = h.XSolvers
+			}
+			st := vm.Explore(vm.Config{Machine: ld.m, Entry: entry, Harness: h.Name, Workers: runtime.NumCPU(), Params: params, KnownOpen: kf.openMap(), Samples: 3, OwnPrefixes: spec.own(), XSolvers: xs})
 			fmt.Printf("[%s %s] ", prop, h.Name)
 			printStats(st, ld.loadS)
 			he := harnessEvidence{Harness: h.Name, Bounds: params, Decisions: st.Decisions, Covers: st.Covers, Exhaustive: st.Exhausted, WallS: st.Wall.Seconds(), Desc: h.Desc,
 				Paths:  map[string]int64{"completed": st.Completed, "pruned": st.Pruned, "failed": st.Failed, "aborted": st.Aborted, "runs": st.Runs},
 				Solver: map[string]any{"backend": "z3 " + z3Version(), "queries": st.Queries, "sat": st.Sat, "unsat": st.Unsat, "inconclusive": st.Unknown, "time_s": st.SolverTime.Seconds()}}
+			if len(xs) > 0 {
+				he.Solver["cross_checked_with"] = xs
+				he.Solver["mirrored_queries"] = st.XQueries
+				he.Solver["disagreements"] = st.XDisagree
+				if st.XDisagree > 0 {
+					infra = append(infra, fmt.Sprintf("%s: %d solver disagreements", h.Name, st.XDisagree))
+				}
+			}
 			if st.Aborted > 0 {
 				he.Aborts = st.AbortMsgs
 				var msgs []string
@@ -298,7 +311,7 @@ func cmdCheck(args []string) int {
 			"bounded: every claim holds only inside the bounds listed per harness (coverage.harnesses[].bounds); outside them nothing is claimed",
 			"trusted base: go/ssa lowering, the gosym VM (validated by native replay and translator validation), intrinsic models of reflect/sync/context/errors/fmt, z3, the reference models in the harness",
 			"map iteration order: `order_schemes` schemes (rotations/reflections of insertion order), one per path",
-			"data races and interleavings between two container-internal synchronisation operations are outside every claim (switches only at user callbacks and blocking points)",
+			"scheduling: context switches only at user callbacks (constructors, Close methods, handlers), blocking points and goroutine exit; interleavings between two container-internal synchronisation operations are outside every claim. Data races are covered only where a harness enables the happens-before detector (bounds: race=1; web *Conc harnesses) and only between the operations that harness runs together",
 		}, spec.Assume...),
 		"coverage": map[string]any{
 			"states":                        states,
